@@ -415,10 +415,10 @@ func (k *c16Checker) viol(sig, what string, in *c16Input, extra map[string]inter
 func (k *c16Checker) checkMessages(errs []*actionlint.Error, in *c16Input) bool {
 	bad := false
 	for _, e := range errs {
-		if strings.ContainsAny(e.Message, "\n\r") {
+		if strings.ContainsAny(e.Message, "\n\r\u2028\u2029") {
 			bad = true
 			k.viol("C16:message-contains-linebreak:"+c16Site(e.Kind, e.Message),
-				fmt.Sprintf("diagnostic message contains a raw line break, so it is printed over several lines: %q [%s]", e.Message, e.Kind),
+				fmt.Sprintf("diagnostic message contains a raw line break (LF, CR, U+2028 or U+2029), so the problem matcher does not parse its header line: %q [%s]", e.Message, e.Kind),
 				in, map[string]interface{}{"message": e.Message, "kind": e.Kind, "errors": c16ErrList(errs)})
 		}
 		if e.Kind == "" || strings.ContainsAny(e.Kind, "[] \n\r") {
@@ -717,7 +717,7 @@ func (k *c16Checker) lintAllModes(src, cfgPath, cfgText string) []*actionlint.Er
 			c.Count("modes_disagree_on_count", 1) // determinism is C02's business
 		}
 		for _, e := range errs {
-			if strings.ContainsAny(e.Message, "\r\n") {
+			if strings.ContainsAny(e.Message, "\r\n\u2028\u2029") {
 				return first
 			}
 		}
@@ -1122,7 +1122,7 @@ func runC16(r *Run) {
 	r.Rule = "workflows from a model generator with nasty strings (line breaks via double-quoted escapes and block scalars, CR, tab, NUL, ANSI escapes, ' [x]', ':1:2: ', quotes, non-ASCII, wide runes) at user-string echo sites (keys, ids, labels, shells, globs, cron specs, input names, action refs, docker tags, expression literals, scopes, events, config labels/variables) in random scalar styles; byte-level hostile variants; mutated corpus files of <repo>/testdata; each linted in default, oneline, {{json .}} and two JSON-lines modes through one Linter call that returns []*Error and prints; multi-file runs through LintFiles and the real CLI (default, -no-color, -color, -oneline, -format). Renderer fuzz on (line, column, source) triples. Non-trivial = distinct message format (kind + static text) echoing user text that was compared / distinct triple whose snippet was shown."
 	r.Assume("file names are sane: no ':' and no line breaks (the monitor uses w.yml-like names)")
 	r.Assume("the problem-matcher regexp is evaluated with Go regexp (leftmost-first, like the JavaScript engine for this pattern) on each output line without its terminating line break")
-	r.Assume("a line break in a message is LF or CR; U+0085/U+2028/U+2029 in messages are not judged")
+	r.Assume("a line break in a message is what ends a line for the JavaScript regexp engine that evaluates the shipped problem matcher: LF, CR, U+2028, U+2029 ('.' matches none of them); U+0085 is matched by '.' there and is not judged")
 	r.Assume("line N of a source is the N-th LF-separated line with one trailing CR removed (what the renderers define); whether Line agrees with the YAML parser's own line counting for sources containing lone CR / NEL / LS / PS is C07's business")
 	r.Assume("JSON output is compared modulo what encoding/json can carry (invalid UTF-8 in the source line becomes U+FFFD)")
 
